@@ -80,7 +80,7 @@ def build(inp: Dict[str, Any], pids: PayloadIds) -> Any:
         g = tuple(tuple(s) for s in inp["g"])
         return build_scfg(domains.graph_to_named(g))
     if d == "N":  # named graph
-        return build_scfg(inp["named"])
+        return build_scfg(inp["named"], used_generator=bool(inp.get("usedgen")))
     if d == "B":
         from numba_scfg.core.datastructures.byte_flow import ByteFlow
 
